@@ -1,8 +1,8 @@
 import L21.Proofs.GeomInv
+import L21.Proofs.GeomCol
 /-
 C13 — "regardless of vertex order, orientation, starting vertex, … repeated vertices":
 the containment query gives the same answer for every way of writing the same polygon down.
-(Inserting a vertex in the interior of an edge — collinear vertices — is not proved; see DESIGN.)
 -/
 namespace L21.Geom
 
@@ -18,6 +18,18 @@ theorem c13_orientation (P : List Pt) (p : Pt) : polyContains P.reverse p = poly
 theorem c13_repeated_vertex (l1 l2 : List Pt) (v p : Pt) :
     polyContains (l1 ++ v :: v :: l2) p = polyContains (l1 ++ v :: l2) p := by
   rw [Bool.eq_iff_iff, c13_poly, c13_poly]; exact InClosed_dup l1 l2 v p
+
+/-- **C13, collinear vertices** for the query itself: an extra vertex anywhere on an edge -/
+theorem c13_collinear_vertex (l1 l2 : List Pt) (a m b p : Pt) (hm : onSeg a b m = true) :
+    polyContains (l1 ++ a :: m :: b :: l2) p = polyContains (l1 ++ a :: b :: l2) p := by
+  rw [Bool.eq_iff_iff, c13_poly, c13_poly]; exact InClosed_collinear l1 l2 a m b p hm
+
+/-- … and on the closing edge -/
+theorem c13_collinear_vertex_closing (l : List Pt) (a m b p : Pt) (hm : onSeg a b m = true) :
+    polyContains (b :: l ++ [a, m]) p = polyContains (b :: l ++ [a]) p := by
+  rw [Bool.eq_iff_iff, c13_poly, c13_poly]; exact InClosed_collinear_closing l a m b p hm
+
+example : onSeg ⟨0,0⟩ ⟨10,5⟩ ⟨4,2⟩ = true ∧ polyContains [⟨0,0⟩, ⟨4,2⟩, ⟨10,5⟩, ⟨0,6⟩] ⟨3,3⟩ = polyContains [⟨0,0⟩, ⟨10,5⟩, ⟨0,6⟩] ⟨3,3⟩ := by decide
 
 /-- non-vacuity: the three rewritings of one triangle, at an interior point, a boundary point and an outside point -/
 example : polyContains [⟨0,0⟩, ⟨10,3⟩, ⟨0,6⟩] ⟨7,3⟩ = true ∧ polyContains [⟨0,6⟩, ⟨10,3⟩, ⟨0,0⟩] ⟨7,3⟩ = true ∧
